@@ -462,14 +462,16 @@ func TestVerif_C16(t *testing.T) {
 		}
 	}
 	// (a1) connection life cycle: one torrent, two peers, two connections to the same peer (the
-	// replaced-connection scenario) and one to the other peer; Max 1 and 2, MaxMutual 1.
+	// replaced-connection scenario) and one to the other peer, a third peer arriving with both as
+	// neighbours; Max 1 and 3, MaxMutual 1. Neighbour lists are duplicate-free (in production they
+	// are the keys of a map), so nothing here depends on how a repeated neighbour would be counted.
 	pre := [][]string{c16Op("newconn", "c0", "h0", "p0"), c16Op("newconn", "c1", "h0", "p0"), c16Op("newconn", "c2", "h0", "p1")}
 	alphaConn := [][]string{
-		c16Op("add", "p0", "h0", "-"), c16Op("add", "p1", "h0", "p0,p0"), c16Op("delp", "p0", "h0"),
+		c16Op("add", "p0", "h0", "-"), c16Op("add", "p1", "h0", "-"), c16Op("add", "p2", "h0", "p0,p1"), c16Op("delp", "p0", "h0"),
 		c16Op("move", "c0"), c16Op("move", "c1"), c16Op("move", "c2"), c16Op("dela", "c0"), c16Op("dela", "c1"),
-		c16Op("close", "c1"), c16Op("active"), c16Op("sat", "h0"),
+		c16Op("close", "c1"),
 	}
-	for _, max := range []int{1, 2} {
+	for _, max := range []int{1, 3} {
 		exhaust(fmt.Sprintf("conn_max%d", max), c16Cfg(max, 1, 0, 10), pre, alphaConn, verifh.Scale(4, 5))
 	}
 	// (a2) blacklist timing: duration 10ns, advances across the expiry boundary.
@@ -515,8 +517,10 @@ func TestVerif_C16(t *testing.T) {
 			switch x := r.Intn(100); {
 			case x < 22:
 				var nb []string
-				for q := r.Intn(4); q > 0; q-- {
-					nb = append(nb, pt())
+				for q := 0; q < np; q++ {
+					if r.Chance(1, 3) {
+						nb = append(nb, fmt.Sprintf("p%d", q))
+					}
 				}
 				o = c16Op("add", pt(), ht(), verifh.List(nb))
 			case x < 28:
